@@ -17,6 +17,7 @@ var (
 		"10.0.0.0/8", "10.1.0.0/16", "10.1.2.0/24", "10.1.2.3/32", "172.16.0.0/12", "192.168.0.0/16",
 		"0.0.0.0/0", "127.0.0.0/8", "127.1.2.3/32", "127.0.0.1/32", "1.1.0.0/16", "9.9.0.0/16", "10.1.2.3/8",
 		"169.254.169.254/32", "10.96.0.0/12", "0.0.0.0/1", "128.0.0.0/1", "255.255.255.255/32", "10.1.2.2/31",
+		"127.5.5.5/1", "127.0.0.1/0", "126.0.0.0/7", "127.255.255.255/9", "128.0.0.1/8",
 	}
 	cidr6Pool = []string{
 		"2001:db8::/32", "fd00::/8", "::1/128", "::/0", "fe80::/10", "2001:db8:1::/48", "2001:db8::1/128",
@@ -310,6 +311,10 @@ func genEnvCase(r *wire.Rng, c rawCfg, out *wire.Out) {
 			e.via[ce.field] = "alt"
 		case ce.env != "" && r.Chance(1, 4):
 			e.via[ce.field] = "env"
+		case ce.short != "" && r.Chance(1, 2): // what production does
+			e.via[ce.field] = "short"
+		case ce.short != "" && r.Chance(1, 3): // string flags only: bool flags take no separate value
+			e.via[ce.field] = "sp"
 		}
 	}
 	// the host: interface addresses (loopback and link-local first or in between, both family orders)
